@@ -60,6 +60,7 @@ var clauseTags = map[string][]string{
 	"crash.opens":      {"C15"},
 	"crash.acked":      {"C15"},
 	"crash.atomic":     {"C15"},
+	"crash.coherent":   {"C15"},
 }
 
 // Violation is a failed clause.
